@@ -18,10 +18,11 @@ claim("C04",
       "Theorems (Coq, unbounded): the greedy assignment assign_pages (port of _assign_pages) satisfies the boolean "
       "check_assign for every metadata list, budget and new_page flag (break only if forced or overflowing; forced "
       "rows always break), pages are numbered in steps of 0/1 from 1, the accounting never overflows except on "
-      "single-row pages, and appending rows leaves earlier pages unchanged. The same check_assign is evaluated on the "
+      "single-row pages, and appending rows leaves earlier pages unchanged - C04_append_rows carries this through the row "
+      "metadata (K2): the metadata of the first n frame rows, hence their page numbers, do not depend on appended rows. The same check_assign is evaluated on the "
       "page membership of tagged rows read back from rtf_encode(); the model's page list must equal the implementation's.",
       "Row heights are taken from the width oracle (Pillow, trusted); K2 (row metadata) is modelled and tied by "
-      "correspondence, not proved; generators keep every cell inside a k-line band (ties flagged and excluded).",
+      "correspondence; that the sliced attributes of the longer frame agree on the first n rows is checked metamorphically; generators keep every cell inside a k-line band (ties flagged and excluded).",
       "Rocq proof (induction over the greedy loop) + checked model/code correspondence + exhaustive small core in thorough tier",
       "DESIGN.md section 6 C04, section 5 K1")
 claim("C02",
